@@ -3,6 +3,8 @@ package main
 import (
 	"os"
 	"path/filepath"
+	"regexp"
+	"sort"
 	"strings"
 	"testing"
 )
@@ -107,6 +109,70 @@ func (t *T) Ptr() {
 
 func (t *T) Sync() { t.wg.Wait(); <-t.ch }
 
+// (a) reference-typed field value taken under the lock, mutated after Unlock
+func (t *T) AliasAfterUnlock() {
+	t.mu.Lock()
+	m := t.m
+	t.mu.Unlock()
+	delete(m, 1)
+}
+
+func (t *T) AliasIndexAssign() {
+	t.mu.Lock()
+	m := t.m
+	t.mu.Unlock()
+	m[2] = 3
+}
+
+// the same under the lock is fine
+func (t *T) AliasUnderLock() {
+	t.mu.Lock()
+	m := t.m
+	m[2] = 3
+	t.mu.Unlock()
+}
+
+// (b) struct copy outside the lock
+func (t *T) CopyOutside() int {
+	g := *t
+	return g.n
+}
+
+// (c) method value taken, called later
+func (t *T) used() bool { return t.n > 0 }
+func (t *T) MethodValue() bool {
+	u := t.used
+	t.mu.RLock()
+	defer t.mu.RUnlock()
+	return u()
+}
+
+// (d) unlock through an alias of the mutex
+func (t *T) MutexAlias() {
+	t.mu.Lock()
+	mu := &t.mu
+	mu.Unlock()
+	t.n = 7
+}
+
+// (e) the lock is taken inside an own method
+func (t *T) lock() { t.mu.Lock() }
+func (t *T) LockInCallee() {
+	t.lock()
+	defer t.mu.Unlock()
+	t.n = 8
+}
+
+func (t *T) withLock() {
+	t.mu.Lock()
+	defer t.mu.Unlock()
+	t.n = 9
+}
+func (t *T) AfterCalleeReleased() {
+	t.withLock()
+	t.n = 10
+}
+
 func use(*int) {}
 `
 
@@ -190,6 +256,89 @@ func TestLocks(t *testing.T) {
 	}
 }
 
+// a Go rendering of Glb.Lib.Lockset.check_discipline restricted to a scope, for the tests only
+var recRe = regexp.MustCompile(`mkAcc "([^"]*)" "([^"]*)" (true|false) (true|false) (\[[^\]]*\]) (true|false)`)
+
+type rec struct {
+	fn, loc       string
+	write, atomic bool
+	held          map[string]string
+	prepub        bool
+}
+
+func parseRecs(out string) []rec {
+	var rs []rec
+	for _, m := range recRe.FindAllStringSubmatch(out, -1) {
+		r := rec{fn: m[1], loc: m[2], write: m[3] == "true", atomic: m[4] == "true", prepub: m[6] == "true", held: map[string]string{}}
+		for _, h := range regexp.MustCompile(`\("([^"]*)", (Sh|Ex)\)`).FindAllStringSubmatch(m[5], -1) {
+			r.held[h[1]] = h[2]
+		}
+		rs = append(rs, r)
+	}
+	return rs
+}
+
+func disciplineFails(rs []rec, scope ...string) []string {
+	in := map[string]bool{}
+	for _, s := range scope {
+		in[s] = true
+	}
+	byLoc := map[string][]rec{}
+	for _, r := range rs {
+		if in[r.fn] && !r.prepub {
+			byLoc[r.loc] = append(byLoc[r.loc], r)
+		}
+	}
+	var bad []string
+	for loc, A := range byLoc {
+		allAtomic, noWrite := true, true
+		locks := map[string]bool{}
+		for _, a := range A {
+			allAtomic = allAtomic && a.atomic
+			noWrite = noWrite && !a.write
+			for l := range a.held {
+				locks[l] = true
+			}
+		}
+		guarded := false
+		for l := range locks {
+			ok := true
+			for _, a := range A {
+				md, has := a.held[l]
+				if !has || (a.write && md != "Ex") {
+					ok = false
+				}
+			}
+			guarded = guarded || ok
+		}
+		if !(allAtomic || noWrite || guarded) {
+			bad = append(bad, loc)
+		}
+	}
+	sort.Strings(bad)
+	return bad
+}
+
+func TestBlindSpots(t *testing.T) {
+	rs := parseRecs(runLocks(t, lockSrc, "T", "mu"))
+	base := []string{"Helper", "Guarded"}
+	if bad := disciplineFails(rs, base...); len(bad) != 0 {
+		t.Fatalf("baseline scope must pass, fails on %v", bad)
+	}
+	for _, racy := range []string{"AliasAfterUnlock", "AliasIndexAssign", "CopyOutside", "MethodValue", "MutexAlias", "AfterCalleeReleased"} {
+		if bad := disciplineFails(rs, append(base, racy)...); len(bad) == 0 {
+			t.Errorf("%s is racy against Helper/Guarded but the discipline passes", racy)
+		} else {
+			t.Logf("%s: fails on %v", racy, bad)
+		}
+	}
+	for _, fine := range []string{"LockInCallee", "AliasUnderLock", "EarlyUnlock"} {
+		if bad := disciplineFails(rs, append(base, fine)...); len(bad) != 0 {
+			t.Errorf("%s is race free but the discipline fails on %v", fine, bad)
+		}
+	}
+}
+
 const launchFixed = `package daemon
 func launch(name string) {
 	interrupt := make(chan os.Signal, 1)
@@ -214,6 +363,16 @@ func launch(name string) {
 	case <-finished:
 	case <-interrupt:
 	}
+}
+
+func Done() (err error) {
+	var p *os.Process
+	if p, err = os.FindProcess(os.Getppid()); err == nil {
+		if err = p.Signal(os.Interrupt); err == nil {
+			return nil
+		}
+	}
+	return err
 }
 `
 
@@ -249,6 +408,42 @@ func TestLaunch(t *testing.T) {
 	noSelect := strings.Replace(launchFixed, "\tcase <-interrupt:\n", "", 1)
 	if got := runLaunch(t, noSelect); !strings.Contains(got, "AUnknown") || strings.Contains(got, "ASelect]") {
 		t.Errorf("select without the signal channel must be unknown: %s", got)
+	}
+	// seeded C20a: unbuffered Notify channel
+	unbuf := strings.Replace(launchFixed, "make(chan os.Signal, 1)", "make(chan os.Signal)", 1)
+	if got := runLaunch(t, unbuf); got != "[ANotifyUnbuffered; AStart; AWritePid; ASpawnWait; ASelect]" {
+		t.Errorf("unbuffered: %s", got)
+	}
+	// seeded C20d / grace timers: a select case on anything but the two channels
+	for _, c := range []string{"\tcase <-time.After(100 * time.Millisecond):\n", "\tcase <-grace.C:\n", "\tdefault:\n"} {
+		timer := strings.Replace(launchFixed, "\tcase <-interrupt:\n", "\tcase <-interrupt:\n"+c, 1)
+		if got := runLaunch(t, timer); !strings.Contains(got, `AUnknown "select case`) || strings.Contains(strings.ReplaceAll(got, "missing ASelect", ""), "ASelect") {
+			t.Errorf("select with %q must be unknown: %s", c, got)
+		}
+	}
+	// Done() sending another signal than Notify listens for
+	term := strings.Replace(launchFixed, "p.Signal(os.Interrupt)", "p.Signal(syscall.SIGTERM)", 1)
+	if got := runLaunch(t, term); !strings.Contains(got, "AUnknown") {
+		t.Errorf("Done with SIGTERM must be unknown: %s", got)
+	}
+	sigint := strings.Replace(launchFixed, "p.Signal(os.Interrupt)", "p.Signal(syscall.SIGINT)", 1)
+	if got := runLaunch(t, sigint); got != "[ANotify; AStart; AWritePid; ASpawnWait; ASelect]" {
+		t.Errorf("syscall.SIGINT is os.Interrupt: %s", got)
+	}
+	other := strings.Replace(launchFixed, "signal.Notify(interrupt, os.Interrupt)", "signal.Notify(interrupt, syscall.SIGHUP)", 1)
+	if got := runLaunch(t, other); !strings.Contains(got, "listens for") {
+		t.Errorf("Notify for another signal must be unknown: %s", got)
+	}
+	// a non-deferred signal.Stop before the select
+	stop := strings.Replace(launchFixed, "\tdefer signal.Stop(interrupt)\n", "\tsignal.Stop(interrupt)\n", 1)
+	if got := runLaunch(t, stop); !strings.Contains(got, `AUnknown "call signal.Stop`) {
+		t.Errorf("non-deferred signal.Stop must be unknown: %s", got)
+	}
+	// harmless: pid written after the select
+	late := strings.Replace(launchFixed, "\t} else {\n\t\tbinary.Write(os.Stdout, binary.LittleEndian, uint32(cmd.Process.Pid))\n\t}\n", "\t}\n", 1)
+	late = strings.Replace(late, "\tcase <-interrupt:\n\t}\n}", "\tcase <-interrupt:\n\t}\n\tbinary.Write(os.Stdout, binary.LittleEndian, uint32(cmd.Process.Pid))\n}", 1)
+	if got := runLaunch(t, late); got != "[ANotify; AStart; ASpawnWait; ASelect; AWritePid]" {
+		t.Errorf("late WritePid: %s", got)
 	}
 	extra := strings.Replace(launchFixed, "\tverifPause(", "\tos.Exit(0)\n\tverifPause(", 1)
 	if got := runLaunch(t, extra); !strings.Contains(got, `AUnknown "call os.Exit`) {
